@@ -220,6 +220,25 @@ def get_node(root, path):
     return n
 
 
+def series_ok(n):
+    """1.0 iff no history accessor of the node hands out a row after the tree's current date"""
+    if isinstance(n, core.SecurityBase):
+        names = ["prices", "values", "notional_values", "positions", "outlays"]
+        if n._bidoffer_set:
+            names += ["bidoffers", "bidoffers_paid"]
+        if isinstance(n, core.CouponPayingSecurity):
+            names = ["coupons", "holding_costs"] + names      # read first: they only refresh the tree
+    else:
+        names = ["prices", "values", "notional_values", "cash", "fees", "flows"]
+        if n._bidoffer_set:
+            names += ["bidoffers_paid"]
+    series = [getattr(n, nm) for nm in names]
+    rnow = n.root.now
+    if isinstance(rnow, int):
+        return 1.0
+    return 1.0 if all(len(x) == 0 or x.index[-1] <= rnow for x in series) else 0.0
+
+
 def apply_op(root, op, dts):
     kind = op[0]
     if kind == "update":
@@ -270,6 +289,8 @@ def apply_op(root, op, dts):
             return n.notional_value
         if f == "price":
             return n.price
+        if f == "series":
+            return series_ok(n)
         raise ValueError(f)
     else:
         raise ValueError(kind)
